@@ -239,9 +239,10 @@ Lemma cleanup_postcondition_lemma cfg now c p l r :
   a_f r <= a_s r /\ a_seen r <= now /\ now - a_seen r < expiry cfg.
 Proof.
   intros H Hr. apply In_perform_cleanup in H. destruct H as (l0 & _ & K & _).
-  destruct (K r Hr) as [_ Kr]. unfold keep, reliable, unexpired in Kr.
-  apply andb_true_iff in Kr. destruct Kr as [K1 K2]. apply andb_true_iff in K2. destruct K2 as [K2 K3].
-  apply N.leb_le in K1, K2. apply N.ltb_lt in K3. auto.
+  destruct (K r Hr) as [_ Kr]. unfold keep, reliable, unexpired, st_duration_since in Kr.
+  apply andb_true_iff in Kr. destruct Kr as [K1 K2].
+  destruct (N.leb_spec (a_seen r) now) as [K3|K3]; [|discriminate K2].
+  apply N.leb_le in K1. apply N.ltb_lt in K2. auto.
 Qed.
 
 (* the eviction order: a peer that stays is not older than a peer that is evicted *)
@@ -931,3 +932,32 @@ Example acceptor_accepts_model_choice :
   remove_oldest_ok {| max_peers := 1; max_addrs := 2; expiry := 100 |} 1000 0 pre
     [(pA, [mk 1 1 pA 5 1 950; mk 4 1 pA 2 2 960])] = false.
 Proof. vm_compute. split; reflexivity. Qed.
+
+(* ------------------------------------------------------------------ SystemTime arithmetic *)
+(* the expiry test of the code cannot panic: duration_since has no panicking branch *)
+Lemma st_duration_since_no_panic later earlier : st_duration_since later earlier <> Panic.
+Proof. unfold st_duration_since. destruct (_ <=? _); discriminate. Qed.
+
+Lemma unexpired_spec cfg now r :
+  unexpired cfg now r = (a_seen r <=? now) && (now - a_seen r <? expiry cfg).
+Proof. unfold unexpired, st_duration_since. destruct (a_seen r <=? now); reflexivity. Qed.
+
+(* written with `last_seen + expiry` the same test panics for a last_seen within `expiry` of the largest
+   SystemTime -- which a cache file can hold (serde accepts secs_since_epoch up to i64::MAX) *)
+Lemma expiry_by_addition_refuted_lemma :
+  exists cfg now r, a_seen r <= ST_MAX /\ unexpired_by_addition cfg now r = Panic /\ unexpired cfg now r = false.
+Proof.
+  exists default_config, 1790000000000000000,
+    {| a_addr := []; a_s := 1; a_f := 0; a_seen := 9223372036854775807 * 1000000000 |}.
+  repeat split; vm_compute; try reflexivity. discriminate.
+Qed.
+
+(* and away from that corner the two formulations agree *)
+Lemma expiry_by_addition_agrees cfg now r :
+  a_seen r + expiry cfg <= ST_MAX -> unexpired_by_addition cfg now r = Ok (unexpired cfg now r).
+Proof.
+  intros H. unfold unexpired_by_addition, st_add. destruct (N.leb_spec (a_seen r + expiry cfg) ST_MAX); [|lia].
+  cbn [bind]. rewrite unexpired_spec. f_equal.
+  destruct (N.leb_spec (a_seen r) now) as [L|L]; cbn [andb]; [|reflexivity].
+  destruct (N.ltb_spec now (a_seen r + expiry cfg)), (N.ltb_spec (now - a_seen r) (expiry cfg)); try reflexivity; lia.
+Qed.
